@@ -1,5 +1,6 @@
 import Magog.Lemmas.GoArith
 import Magog.Props.C05
+import Magog.Model.Eval
 
 /-! C05 - mate-score arithmetic and score formatting: the Go functions `nextMoveWins`, `closeToMate`, `pliesToMate`, `fullMovesToMate`.
 
@@ -24,14 +25,6 @@ theorem closeToMate_tie (s : Int) (h1 : -9223372036854775808 < s) (h2 : s < 9223
   simp only [Gen.ScoreCloseToMate]
   apply decide_eq_decide.mpr
   omega
-theorem calcEndtime_tie (bl bi wl wi mtg : Int) (b : Bool) :
-    OkEq (Gen.Fn.calcEndtime_millis bl bi wl wi mtg b) (Model.allot b bl bi wl wi mtg) := by
-  unfold Gen.Fn.calcEndtime_millis Model.allot Gen.Fn.goDiv Model.goDiv OkEq
-  simp only [wrapS64_eq_wrap64, min_eq, max_eq, Gen.antiflagMillis]
-  cases b 
-  · by_cases hm : mtg = 0 <;> by_cases h : wi < wl <;> simp [hm, h, throw, throwThe, MonadExceptOf.throw, pure, Except.pure, Functor.map, Except.map, bind, Except.bind]
-  · by_cases hm : mtg = 0 <;> by_cases h : bi < bl <;> simp [hm, h, throw, throwThe, MonadExceptOf.throw, pure, Except.pure, Functor.map, Except.map, bind, Except.bind]
-
 theorem pliesToMate_tie (s : Int) (h1 : -9223372036854775808 < s) (h2 : s < 9223372036854775808) :
     Gen.Fn.pliesToMate s = Model.pliesToMate s := by
   unfold Gen.Fn.pliesToMate Model.pliesToMate
@@ -68,5 +61,68 @@ theorem abs_minInt64 : Gen.Fn.abs (-9223372036854775808) = -9223372036854775808 
 
 example : Gen.Fn.fullMovesToMate 99997 = 2 ∧ Gen.Fn.fullMovesToMate (-99996) = -2 ∧ Gen.Fn.closeToMate 99997 = true
     ∧ Gen.Fn.closeToMate 20650 = false ∧ Gen.Fn.pliesToMate (-99996) = 4 ∧ Gen.Fn.nextMoveWins 99999 = true := by decide
+
+/-- values that occur in a search: far inside int64 -/
+def Small (x : Int) : Prop := -1000000000000 < x ∧ x < 1000000000000
+
+/-- the decision structure of the lazy evaluation: given the same four sub-results (mate test, cheap score, the two
+    mobility counts) the hand-written model returns what the translated Go code returns -/
+theorem lazyEvaluate_tie (blend : Model.Blend) (p : Model.Position) (depth alpha beta : Int)
+    (mate : Bool) (cheap : Int) (own enemy : Nat)
+    (hd : Small depth) (ha : Small alpha) (hb : Small beta) (hc : Small cheap) (ho : own < 1000000) (he : enemy < 1000000)
+    (h1 : Model.isCheckMate p = .ok mate)
+    (h2 : mate = false → Model.pieceSquareScore blend p = .ok cheap)
+    (h3 : mate = false → Model.countMoves p = .ok own)
+    (h4 : mate = false → Model.countMoves (Model.flipTurn p) = .ok enemy) :
+    Model.lazyEvaluate blend p depth alpha beta = .ok (Gen.Fn.LazyEvaluate_decision depth alpha beta mate cheap own enemy) := by
+  unfold Small at *
+  unfold Model.lazyEvaluate Gen.Fn.LazyEvaluate_decision
+  simp only [h1, bind, Except.bind, pure, Except.pure]
+  cases mate with
+  | true =>
+    simp only [↓reduceIte, Gen.LostScore]
+    rw [wrapS64_id (by omega) (by omega)]
+  | false =>
+    simp only [h2 rfl, h3 rfl, h4 rfl, Bool.false_eq_true, ↓reduceIte, Gen.fullEvalScoreMargin, Gen.MobilityScoreFactor, Gen.DrawScore]
+    rw [wrapS64_id (x := beta + 320) (by omega) (by omega), wrapS64_id (x := alpha - 320) (by omega) (by omega),
+      wrapS64_id (x := (own:Int) * 5) (by omega) (by omega), wrapS64_id (x := (enemy:Int) * 5) (by omega) (by omega),
+      wrapS64_id (x := (own:Int) * 5 - (enemy:Int) * 5) (by omega) (by omega),
+      wrapS64_id (x := cheap + ((own:Int) * 5 - (enemy:Int) * 5)) (by omega) (by omega)]
+    have c320 : ((320 : Nat) : Int) = 320 := rfl
+    have c0 : ((0 : Nat) : Int) = 0 := rfl
+    simp only [c320, c0]
+    by_cases hcut : cheap > beta + 320 ∨ cheap < alpha - 320
+    · have hb' : (decide (cheap > beta + 320) || decide (cheap < alpha - 320)) = true := by
+        rcases hcut with h | h
+        · simp [h]
+        · simp [h]
+      rw [if_pos hb', if_pos hb']
+    · have hb' : ¬ ((decide (cheap > beta + 320) || decide (cheap < alpha - 320)) = true) := by
+        intro h
+        rw [Bool.or_eq_true, decide_eq_true_eq, decide_eq_true_eq] at h
+        exact hcut h
+      rw [if_neg hb', if_neg hb']
+      by_cases h0 : own = 0
+      · subst h0; rfl
+      · have a1 : ¬ ((own * 5 == 0) = true) := by rw [beq_iff_eq]; omega
+        have a2 : ¬ ((((own:Int) * 5) == 0) = true) := by rw [beq_iff_eq]; omega
+        rw [if_neg a1, if_neg a2]
+        congr 1
+        have e1 : ((own * 5 : Nat) : Int) = (own : Int) * 5 := by omega
+        have e2 : ((enemy * 5 : Nat) : Int) = (enemy : Int) * 5 := by omega
+        rw [e1, e2]
+        omega
+
+theorem terminalNodeScore_tie (p : Model.Position) (depth : Int) (hd : Small depth) (chk : Bool)
+    (h : Model.isCurrentKingUnderCheck p = .ok chk) :
+    Model.terminalNodeScore p depth = .ok (Gen.Fn.terminalNodeScore_decision depth chk) := by
+  unfold Small at hd
+  unfold Model.terminalNodeScore Gen.Fn.terminalNodeScore_decision
+  simp only [h, bind, Except.bind, pure, Except.pure, Gen.LostScore, Gen.DrawScore]
+  rw [wrapS64_id (by omega) (by omega)]
+  cases chk <;> rfl
+
+example : Gen.Fn.LazyEvaluate_decision 3 (-50) 50 true 0 0 0 = -99997 ∧ Gen.Fn.LazyEvaluate_decision 3 (-50) 50 false 900 20 20 = 900
+    ∧ Gen.Fn.LazyEvaluate_decision 3 (-50) 50 false 10 0 5 = 0 ∧ Gen.Fn.LazyEvaluate_decision 3 (-50) 50 false 10 30 20 = 60 := by decide
 
 end Magog.Props.C05Tie
